@@ -33,14 +33,14 @@ def metaTextCut : Nat → List Nat → List Nat
   | _, [] => []
   | cnt, c :: cs => if cnt + utf8Len1 c < 128 then c :: metaTextCut (cnt + utf8Len1 c) cs else []
 
-/-- `Event::sysex` with checksum markers: -1 starts summing, -2 writes `((128 - (sum & 0x7F)) & 0x7F)` -/
+/-- `Event::sysex` with checksum markers: -1 starts summing from 0 (every group has its own sum), -2 writes `((128 - (sum & 0x7F)) & 0x7F)` -/
 def sysexGo : Bool → Int → List Int → List Nat
   | _, _, [] => []
   | flag, sum, n :: rest =>
     if flag && n = -2 then ((128 - sum % 128) % 128).toNat :: sysexGo false sum rest
     else
       let sum' := if flag then sum + n else sum
-      if n = -1 then sysexGo true sum' rest
+      if n = -1 then sysexGo true 0 rest
       else u8 n :: sysexGo flag sum' rest
 
 def sysexData (checksum : Bool) (vals : List Int) : List Nat :=
